@@ -195,3 +195,308 @@ def render_case(case, story_fn, item_fn):
     if k == 'ReadyToAir':
         return g.msg_ready_to_air()
     raise ValueError(k)
+
+
+class HItem:
+    """Item-level harness: story S1 (addressed) holds every sequence of item IDs over a pool, with
+    paragraphs / foreign elements interleaved; decoy story S2 holds the same item IDs, so a lookup
+    that leaves the addressed story is visible.  Menu = every item-level message."""
+    name = 'H-ITEM'
+    S1, S2 = 'S1', 'S2'
+
+    def __init__(self, pool=5, cap=4, max_list=2, patterns=('plain', 'p-between', 'foreign'),
+                 positions=('first', 'second'), kinds=spec.ITEM_KINDS, init_max=None, rich=False,
+                 packings=('one', 'per'), layout='before', pretty_msgs=False, timing='dur'):
+        self.pool = gen.ITEM_POOL[:pool]
+        self.cap = cap
+        self.max_list = max_list
+        self.patterns = patterns
+        self.positions = positions
+        self.kinds = kinds
+        self.init_max = cap if init_max is None else init_max
+        self.rich = rich
+        self.packings = packings
+        self.layout = layout
+        self.pretty_msgs = pretty_msgs
+        self.timing = timing
+
+    def item(self, iid, variant=0):
+        return gen.item_xml(iid, variant, owner=self.S1, rich=self.rich)
+
+    def body(self, ids, pattern):
+        toks = []
+        if pattern == 'foreign':
+            toks.append(('x', 1))
+        for k, i in enumerate(ids):
+            if pattern == 'p-between':
+                toks.append(('p', 'plain'))
+            toks.append(('i', i))
+        if pattern == 'p-between':
+            toks.append(('p', 'plain'))
+        if pattern == 'foreign':
+            toks.append(('x', 2))
+        return tuple(toks)
+
+    def initial_states(self):
+        out = []
+        decoy_ids = [self.pool[2 % len(self.pool)], self.pool[0], self.pool[1 % len(self.pool)]]
+        decoy = gen.story_xml(self.S2, 0, body=tuple(('i', i) for i in decoy_ids), timing=self.timing, rich=self.rich)
+        other = gen.story_xml('S3', 0, body=(('p', 'plain'),), timing=self.timing)
+        for pos in self.positions:
+            for pattern in self.patterns:
+                for n in range(0, self.init_max + 1):
+                    for ids in itertools.permutations(self.pool, n):
+                        s1 = gen.story_xml(self.S1, 0, body=self.body(ids, pattern), timing=self.timing, rich=self.rich)
+                        stories = [s1, decoy, other] if pos == 'first' else [decoy, s1, other] if pos == 'second' else [other, decoy, s1]
+                        out.append(gen.ro_text(stories, self.layout, gen.meta_elems(2)))
+        return out
+
+    def menu(self, view, res):
+        s1 = view.story(self.S1)
+        if s1 is None:
+            return
+        ids = s1.item_ids
+        n = len(ids)
+        L = self.max_list
+        new = [p for p in self.pool if p not in ids]
+        K = self.kinds
+        refs_t = ids + [UNKNOWN, BLANK]
+        refs_s = ids + [UNKNOWN, BLANK]
+        for story in (self.S1, UNKNOWN, BLANK, ABSENT):
+            full = story == self.S1
+            # with an unresolvable story reference a reduced argument menu suffices
+            r_t = refs_t if full else (ids[:1] + [UNKNOWN, BLANK])
+            r_s = refs_s if full else (ids[:1] + [UNKNOWN])
+            LL = L if full else 1
+            for kind in ('ItemInsert', 'EAItemInsert'):
+                if kind not in K:
+                    continue
+                tg = r_t + ([ABSENT] if kind == 'ItemInsert' else [])
+                for tgt in tg:
+                    for pl in _lists(new[:2], 1, LL):
+                        if full and n + len(pl) > self.cap:
+                            res.disabled['cap:' + kind] += 1
+                            continue
+                        yield {'kind': kind, 'story': story, 'tgt': tgt, 'payload': tuple((i, 0) for i in pl)}
+            for kind in ('ItemReplace', 'EAItemReplace'):
+                if kind not in K:
+                    continue
+                tg = r_t + ([ABSENT] if kind == 'ItemReplace' else [])
+                for tgt in tg:
+                    cands = new[:2] + ([tgt] if tgt in ids else [])
+                    for pl in _lists(cands, 0 if full else 1, LL):
+                        if full and n - 1 + len(pl) > self.cap:
+                            res.disabled['cap:' + kind] += 1
+                            continue
+                        yield {'kind': kind, 'story': story, 'tgt': tgt, 'payload': tuple((i, 0) for i in pl)}
+            for kind in ('ItemDelete', 'EAItemDelete'):
+                if kind not in K:
+                    continue
+                for srcs in _lists(r_s, 1, LL, repeats=True):
+                    for packing in (self.packings if kind.startswith('EA') else ('one',)):
+                        if packing == 'per' and len(srcs) < 2:
+                            continue
+                        yield {'kind': kind, 'story': story, 'srcs': tuple(srcs), 'packing': packing}
+            for kind in ('ItemMoveMultiple', 'EAItemMove'):
+                if kind not in K:
+                    continue
+                for tgt in r_t:
+                    for srcs in _lists(r_s, 1, LL, repeats=True):
+                        for packing in (self.packings if kind.startswith('EA') else ('one',)):
+                            if packing == 'per' and len(srcs) < 2:
+                                continue
+                            yield {'kind': kind, 'story': story, 'tgt': tgt, 'srcs': tuple(srcs), 'packing': packing}
+            if 'EAItemSwap' in K:
+                for a in r_s:
+                    for b in r_s:
+                        yield {'kind': 'EAItemSwap', 'story': story, 'srcs': (a, b)}
+
+    def render(self, case, view):
+        text = render_case(case, None, self.item)
+        return gen.prettify(text) if self.pretty_msgs else text
+
+    def accept(self, ctx):
+        av = ctx.after_view
+        if av is None:
+            return False
+        s1 = av.story(self.S1)
+        if s1 is None:
+            return False
+        ids = s1.item_ids
+        if len(ids) > self.cap or len(set(ids)) != len(ids) or any(not i for i in ids):
+            return False
+        return True
+
+
+# ---------------------------------------------------------------- H-MIXED
+META_KEYS = ('roSlug', 'roEdStart', 'roChannel', 'roTrigger', 'mem1', 'mem2', 'mem3')
+
+
+def meta_elem_xml(key, variant=1):
+    """Running-order metadata element carried by roMetadataReplace."""
+    if key == 'roSlug':
+        return f'<roSlug>RO slug v{variant} {gen.escape(gen.SPECIAL)}</roSlug>'
+    if key == 'roEdStart':
+        return '<roEdStart>2021-02-03T04:05:06</roEdStart>'
+    if key == 'roChannel':
+        return f'<roChannel>chan{variant}</roChannel>'
+    if key == 'roTrigger':
+        return f'<roTrigger how="new{variant}">MANUAL</roTrigger>'
+    if key.startswith('mem'):
+        n = key[3:]
+        return gen.mem_xml(f'ro.schema.{n}', f'<roNote v="{variant}" k={gen.quoteattr(gen.SPECIAL)}>replaced {n}<deep><x/>t</deep></roNote>')
+    raise ValueError(key)
+
+
+def meta_key_of(elem):
+    """(tag, schema) key under which roMetadataReplace matches a roCreate child."""
+    if elem.tag == 'mosExternalMetadata':
+        s = elem.find('mosSchema')
+        return (elem.tag, s.text if s is not None else None)
+    return (elem.tag, None)
+
+
+def meta_key_tuple(key):
+    if key.startswith('mem'):
+        return ('mosExternalMetadata', f'ro.schema.{key[3:]}')
+    return (key, None)
+
+
+class HMixed:
+    """Small running orders (mixed timing metadata, paragraphs, items repeated across stories)
+    under all 24 mergeable message classes."""
+    name = 'H-MIXED'
+
+    PROFILES = {
+        'A': ('dur', (('p', 'plain'), ('i', 'a'), ('p', 'round'), ('i', 'ab'))),
+        'AB': ('both', (('i', 'a'),)),
+        'C': ('none', (('p', 'empty'), ('p', 'unicode'))),
+        'D': ('nometa', (('i', 'c'), ('p', 'padded-plain'))),
+        'E': ('text', (('p', 'plain'),)),
+    }
+
+    def __init__(self, pool=4, cap=3, ipool=3, icap=3, max_list=2, init_shapes='std', kinds=spec.ALL_KINDS,
+                 rich=False, layouts=('before', 'between'), replace_variant=1, packings=('one',),
+                 meta_subsets=2, uniform_timing=None, story_L=None, nmeta=4):
+        self.pool = gen.STORY_POOL[:pool]
+        self.cap = cap
+        self.ipool = gen.ITEM_POOL[:ipool]
+        self.icap = icap
+        self.max_list = max_list
+        self.kinds = kinds
+        self.rich = rich
+        self.layouts = layouts
+        self.replace_variant = replace_variant
+        self.packings = packings
+        self.meta_subsets = meta_subsets
+        self.init_shapes = init_shapes
+        self.uniform_timing = uniform_timing
+        self.nmeta = nmeta
+        self._hs = HStory(pool=pool, cap=cap, max_list=story_L or max_list, kinds=kinds, packings=packings,
+                          replace_variant=replace_variant)
+        self._hs.story = self.story
+
+    def story(self, sid, variant=0):
+        timing, body = self.PROFILES.get(sid, ('dur', (('p', 'plain'),)))
+        if self.uniform_timing:
+            timing = self.uniform_timing
+        return gen.story_xml(sid, variant, body=body, timing=timing, rich=self.rich)
+
+    def item(self, iid, variant=0):
+        return gen.item_xml(iid, variant, owner='mix', rich=self.rich)
+
+    def initial_states(self):
+        out = []
+        if self.init_shapes == 'std':
+            shapes = [(), ('A',), ('A', 'AB'), ('AB', 'A', 'C'), ('D', 'A'), ('C', 'D', 'AB')]
+        elif self.init_shapes == 'all':
+            shapes = [ids for n in range(0, self.cap + 1) for ids in itertools.permutations(self.pool, n)]
+        else:
+            shapes = self.init_shapes
+        for layout in self.layouts:
+            for ids in shapes:
+                ids = [i for i in ids if i in self.pool][:self.cap]
+                out.append(gen.ro_text([self.story(i) for i in ids], layout, gen.meta_elems(self.nmeta)))
+        return out
+
+    def menu(self, view, res):
+        K = self.kinds
+        yield from self._hs.menu(view, res)
+        # ---- item level: every story of the state can be addressed
+        L = self.max_list
+        stories = view.stories
+        addr = [s.id for s in stories] + [UNKNOWN, BLANK]
+        for sref in addr:
+            sv = view.story(sref) if sref not in (UNKNOWN, BLANK) else None
+            ids = sv.item_ids if sv is not None else []
+            full = sv is not None
+            n = len(ids)
+            new = [p for p in self.ipool if p not in ids]
+            r_t = (ids + [UNKNOWN, BLANK]) if full else [UNKNOWN, BLANK]
+            r_s = (ids + [UNKNOWN, BLANK]) if full else [UNKNOWN]
+            LL = L if full else 1
+            for kind in ('ItemInsert', 'EAItemInsert'):
+                if kind in K:
+                    for tgt in r_t:
+                        for pl in _lists(new[:2], 1, LL):
+                            if full and n + len(pl) > self.icap:
+                                res.disabled['cap:' + kind] += 1
+                                continue
+                            yield {'kind': kind, 'story': sref, 'tgt': tgt, 'payload': tuple((i, 0) for i in pl)}
+            for kind in ('ItemReplace', 'EAItemReplace'):
+                if kind in K:
+                    for tgt in r_t:
+                        cands = new[:1] + ([tgt] if tgt in ids else [])
+                        for pl in _lists(cands, 1, LL):
+                            if full and n - 1 + len(pl) > self.icap:
+                                res.disabled['cap:' + kind] += 1
+                                continue
+                            yield {'kind': kind, 'story': sref, 'tgt': tgt, 'payload': tuple((i, self.replace_variant) for i in pl)}
+            for kind in ('ItemDelete', 'EAItemDelete'):
+                if kind in K:
+                    for srcs in _lists(r_s, 1, LL, repeats=True):
+                        yield {'kind': kind, 'story': sref, 'srcs': tuple(srcs), 'packing': 'one'}
+            for kind in ('ItemMoveMultiple', 'EAItemMove'):
+                if kind in K:
+                    for tgt in r_t:
+                        for srcs in _lists(r_s, 1, LL, repeats=True):
+                            yield {'kind': kind, 'story': sref, 'tgt': tgt, 'srcs': tuple(srcs), 'packing': 'one'}
+            if 'EAItemSwap' in K:
+                for a in r_s:
+                    for b in r_s:
+                        yield {'kind': 'EAItemSwap', 'story': sref, 'srcs': (a, b)}
+        # ---- running-order level
+        if 'MetaDataReplace' in K:
+            for n in range(1, self.meta_subsets + 1):
+                for keys in itertools.combinations(META_KEYS, n):
+                    yield {'kind': 'MetaDataReplace', 'elems': keys}
+        if 'RunningOrderReplace' in K:
+            for ids, layout in (((), 'before'), (('E',), 'after'), (('A', 'E'), 'before'), (('AB', 'A'), 'between')):
+                ids = tuple(i for i in ids if i in self.pool or i == 'E')[:self.cap]
+                yield {'kind': 'RunningOrderReplace', 'stories': ids, 'layout': layout}
+        if 'RunningOrderEnd' in K:
+            yield {'kind': 'RunningOrderEnd'}
+        if 'ReadyToAir' in K:
+            yield {'kind': 'ReadyToAir'}
+
+    def render(self, case, view):
+        k = case['kind']
+        if k == 'MetaDataReplace':
+            return gen.msg_metadata_replace([meta_elem_xml(key) for key in case['elems']])
+        if k == 'RunningOrderReplace':
+            return gen.msg_ro_replace([self.story(i, self.replace_variant) for i in case['stories']], case['layout'],
+                                      gen.meta_elems(2, variant=1))
+        return render_case(case, self.story, self.item)
+
+    def accept(self, ctx):
+        av = ctx.after_view
+        if av is None or av.base is None:
+            return False
+        ids = av.story_ids
+        if len(ids) > self.cap or len(set(ids)) != len(ids) or any(not i for i in ids):
+            return False
+        for s in av.stories:
+            ii = s.item_ids
+            if len(ii) > self.icap or len(set(ii)) != len(ii) or any(not i for i in ii):
+                return False
+        return True
